@@ -27,6 +27,8 @@ fn main() {
     let code = match id.as_str() {
         "C01" => main_for::<props::c01::C01>(rest),
         "C02" => main_for::<props::c02::C02>(rest),
+        "C03" => main_for::<props::c03::C03>(rest),
+        "C04" => main_for::<props::c04::C04>(rest),
         _ => {
             eprintln!("unknown property {id}");
             2
